@@ -255,7 +255,7 @@ pub fn run(out: &mut Out, tier: &str, rng: &mut Rng) {
             let mut s = rng.pick(&ls).clone();
             if rng.chance(1, 2) { s.push('-'); s.push_str(rng.pick(&ss[..]).as_str()); }
             if rng.chance(1, 2) { s.push('_'); s.push_str(rng.pick(&rs[..]).as_str()); }
-            for _ in 0..rng.below(3) { s.push('-'); s.push_str(*rng.pick(&["valencia", "1996", "macos", "POSIX", "fonipa"])); }
+            for _ in 0..rng.below(3) { s.push('-'); s.push_str(&crate::gen::rand_variant(rng)); }
             let b = s.as_bytes();
             out.case("li_maximize", &[b], || li_change(b, true));
             out.case("li_minimize", &[b], || li_change(b, false));
@@ -272,9 +272,21 @@ pub fn run(out: &mut Out, tier: &str, rng: &mut Rng) {
         let mut s = if rng.chance(1, 12) { "und".to_string() } else { rng.pick(&ls).clone() };
         if rng.chance(1, 2) { s.push('-'); s.push_str(rng.pick(&ss[..]).as_str()); }
         if rng.chance(1, 2) { s.push('-'); s.push_str(rng.pick(&rs[..]).as_str()); }
-        if rng.chance(1, 6) { s.push_str("-valencia"); }
+        if rng.chance(1, 4) { for _ in 0..(1 + rng.below(2)) { s.push('-'); s.push_str(&crate::gen::rand_variant(rng)); } }
         let b = s.as_bytes();
         out.case(DIR_OP, &[b], || direction(b));
+    }
+    out.comment("real-world tags; every registered variant on an RTL and an LTR language (variants never matter)");
+    for s in crate::corpus::REALWORLD.iter() {
+        let b = s.as_bytes();
+        out.case(DIR_OP, &[b], || direction(b));
+        if cfg!(feature = "likely") { out.case("li_maximize", &[b], || li_change(b, true)); out.case("li_minimize", &[b], || li_change(b, false)); }
+    }
+    for v in crate::gen::REGISTERED_VARIANTS.iter() {
+        for l in ["he", "ar-EG", "uz", "pa-PK", "en", "und", "az-Arab", "fa-Latn"] {
+            let s = format!("{}-{}", l, v);
+            out.case(DIR_OP, &[s.as_bytes()], || direction(s.as_bytes()));
+        }
     }
     // RTL languages x every script / region (the refinement path)
     for l in ["ar", "az", "he", "fa", "ff", "ha", "ks", "ku", "pa", "sd", "ug", "ur", "uz", "yi", "ckb", "mn", "und", "en"] {
